@@ -204,11 +204,17 @@ func TestVerif_C01_h1send(t *testing.T) {
 		// write error is reported: RoundTrip then returns the response (a race the transport does
 		// not arbitrate). Both outcomes are the model's err:bodylen; the bytes that arrived must be
 		// exactly the declared-length prefix. Recorded in notes/C01.md (not a defect of the fork).
-		clRace := err == nil && tc.bodyKind != 0 && tc.cl > 0 && tc.cl < int64(len(tc.body)) && len(caps) == 1 && caps[0].parsed
+		// The same race exists when the peer answers early for another reason (400 for a head the
+		// reference parser refuses) while the write of a body SHORTER than declared is still to fail.
+		clMismatch := tc.bodyKind != 0 && tc.cl > 0 && tc.cl != int64(len(tc.body))
+		clRace := err == nil && clMismatch && len(caps) == 1
 		switch {
+		case clRace && !caps[0].parsed:
+			ans = "err:bodylen"
+			s.Count("bodylen-race-early-400")
 		case clRace:
 			wire := caps[0].raw.Bytes()
-			if k := bytes.Index(wire, []byte("\r\n\r\n")); k >= 0 && bytes.Equal(wire[k+4:], tc.body[:tc.cl]) {
+			if k := bytes.Index(wire, []byte("\r\n\r\n")); k >= 0 && tc.cl < int64(len(tc.body)) && bytes.Equal(wire[k+4:], tc.body[:tc.cl]) {
 				ans = "err:bodylen"
 				s.Count("bodylen-race-response-won")
 			} else {
